@@ -112,6 +112,33 @@ def build(case, rng, nbody):
       inner += render(c, None)
     return '<body%s>%s</body>' % (attrs, inner)
 
+  # ---- off-centre meshes (bounding box centre far from the centre of mass, where the compiler puts the geom frame) with a
+  #      small partner body that touches the mesh ONLY at its far end: the broad phase must still generate the pair
+  probes = ''
+  for k in range(rng.randint(1, 4)):
+    kind = ['spike', 'wedge'][rng.randint(2)]
+    w, h = rng.uniform(0.012, 0.02), rng.uniform(0.25, 0.4)
+    if kind == 'spike':
+      v = np.array([[-w, -w, 0], [w, -w, 0], [w, w, 0], [-w, w, 0], [0, 0, h]], dtype=np.float32)
+      tip = np.array([0.0, 0.0, h])
+    else:                                   # wedge: thick end at z=0, line-like end at z=h
+      v = np.array([[-w, -3 * w, 0], [w, -3 * w, 0], [w, 3 * w, 0], [-w, 3 * w, 0], [-w, 0, h], [w, 0, h]], dtype=np.float32)
+      tip = np.array([0.0, 0.0, h])
+    mname = 'm%d' % len(assets)
+    assets.append(gg.mesh_asset(mname, v))
+    R = gg.quat2mat(gg.rand_quat(rng))
+    P = centres[rng.randint(ncl)] + rng.uniform(-0.4, 0.4, 3)
+    r = rng.uniform(0.008, 0.012)
+    c = P + R @ (tip + np.array([0, 0, 0.4 * r]))       # sphere centre just beyond the far end: penetrates it by 0.6 r
+    bnames.append('s%d' % k)
+    bnames.append('t%d' % k)
+    gnames.append('gs%d_0' % k)
+    gnames.append('gt%d_0' % k)
+    probes += ('<body name="s%d" pos="%s" quat="%s"><freejoint/><geom name="gs%d_0" type="mesh" mesh="%s"/></body>' % (
+        k, gg.fmt(P), gg.fmt(gg.mat2quat(R)), k, mname))
+    probes += '<body name="t%d" pos="%s"><freejoint/><geom name="gt%d_0" type="sphere" size="%s"/></body>' % (
+        k, gg.fmt(c), k, gg.fmt(r))
+
   world = ''
   for p in range(case['nplane']):
     q = gg.axis_angle(gg.rand_unit(rng), rng.uniform(0, 0.3)) if p else np.eye(3)
@@ -121,6 +148,7 @@ def build(case, rng, nbody):
   for w in range(case['nworld']):
     world += geom('w%d' % w).replace('pos="', 'pos="', 1)
   world += ''.join(render(i, None) for i in range(nbody) if bodies[i]['par'] < 0)
+  world += probes
   contact = ''
   for _ in range(case['nexclude']):
     if len(bnames) >= 2:
@@ -133,6 +161,8 @@ def build(case, rng, nbody):
     def dofless(gn):
       if gn[0] in 'pw':
         return True
+      if gn[1] in 'st':
+        return False
       b = bodies[int(gn[1:].split('_')[0])]
       return b['par'] < 0 and b['kind'] < 0.2
     if ga.split('_')[0] == gb.split('_')[0] or (ga, gb) in pairs or (gb, ga) in pairs:
@@ -365,9 +395,13 @@ def main(ck):
             raise Violation('pair set changes under a rigid motion of the whole scene: pair %s present only %s the motion; '
                             'frame pos=%s quat=%s xml=%s' % (p, 'after' if p in got2 else 'before', pf.tolist(),
                                                              gg.mat2quat(Rf).tolist(), xml), bucket='rigid-motion')
+      nfar = sum(1 for p in expected if m.geom_type[p[0]] == E.mjGEOM_MESH and np.linalg.norm(m.geom_aabb[p[0]][:3]) > 0.03 or
+                 m.geom_type[p[1]] == E.mjGEOM_MESH and np.linalg.norm(m.geom_aabb[p[1]][:3]) > 0.03)
       rej = [k for k in reasons if not k.startswith('accept')]
       multi = any(int(m.body_geomnum[int(m.geom_bodyid[g])]) > 1 for p in expected for g in p)
       labels = ['reason:' + k for k in reasons] + (['accepted-pair-on-multigeom-body(BVH)'] if multi else [])
+      if nfar:
+        labels.append('accepted-pair-with-offcentre-mesh')
       if m.nmocap:
         labels.append('mocap')
       ck.case(nontrivial=len(expected) >= 1 and len(rej) >= 2, key=(xml, qpos),
